@@ -6,7 +6,7 @@ META = {
     'level': 'proof',
     'technique': 'Lean 4 theorems on models of Level.Allows (truth table regenerated from the Go method on every run), the override candidate scan and '
                  're-resolution loop, NpmRelaxer.Relax and suggestMavenVersion; table-driven correspondence with the real functions (deps.dev semver results as tables)',
-    'design_ref': 'DESIGN.md §5 C11',
+    'design_ref': 'DESIGN.md §4 (section of C11), §5 (defects), §7 (seeded changes)',
     'text': 'Kernel-checked, unbounded: Allows = regenerated table; every override round pins a known version not below (strictly above, for a comparator that separates '
             'distinct versions) the resolved one with an allowed difference and fewer vulnerabilities; the level bounds the difference to the ORIGINAL base after any '
             'number of rounds (given DiffClassLaws: same-major / same-major.minor / same are transitive) and the loop stops within |versions| rounds (given HonoursPins: '
